@@ -349,7 +349,11 @@ func genParseStructured(entry string, tier string, rng *rand.Rand, emit emitter)
 			if len(full) > 40 && tier != "thorough" {
 				step = 1 + len(full)/40
 			}
-			for k := 0; k <= len(full)+3; k += step {
+			for k := 0; k <= len(full)+3; k++ {
+				// every short prefix (the fixed part of every layout ends before byte 24) and every step-th longer one
+				if k > 24 && k%step != 0 && k < len(full)-2 {
+					continue
+				}
 				var d []byte
 				if k <= len(full) {
 					d = append([]byte{}, full[:k]...)
